@@ -7,11 +7,12 @@ import weakref
 import numpy as np
 
 from gridrv import instrument
+from gridrv.monitors import roundtrip
 from gridrv.oracles import c18ref
 
 PROP = "C18"
 TITLE = "Multi-domain integration equals the iterated product quadrature"
-REQUIRED_HOOKS = ["MultiDomainGrid.__init__", "MultiDomainGrid.integrate", "MultiDomainGrid.size", "MultiDomainGrid.points", "MultiDomainGrid.weights", "MultiDomainGrid.num_domains"]
+REQUIRED_HOOKS = ["MultiDomainGrid.__init__", "MultiDomainGrid.integrate", "MultiDomainGrid.size", "MultiDomainGrid.points", "MultiDomainGrid.weights", "MultiDomainGrid.num_domains"] + [f"clone:{k}" for k in roundtrip.KINDS]
 REQUIRED_FAMILIES = ["product", "repeated", "default-chunk", "hostile", "history", "huge-size", "forms"]
 BUDGET = {"quick": 300, "thorough": 2400}
 TOL = 1e-12
@@ -38,6 +39,9 @@ RULE = (
     "component arrays (the reference copies them at every call). huge-size = product sets of 2**40 .. 2**200 tuples in repeated and "
     "list mode: size must be the exact integer product (never enumerated). forms = component grids with integer / float32 points "
     "and weights, integrands returning integer / float32 / complex / Python-float values, num_domains as NumPy integers. "
+    "clones: in product/repeated/history cases the MultiDomainGrid (and, every other case, its component grids before construction) "
+    "goes through copy.copy / copy.deepcopy / pickle (protocols default and 2): public state of clone == original, original unchanged, "
+    "and the clone is decided by the same post-conditions against the ORIGINAL's component grids. "
     "Non-trivial = at least one integral was compared with the nested sum (huge-size: one size compared)."
 )
 ASSUMPTIONS = [
@@ -169,7 +173,7 @@ def _ref_grids(mg):
     ent = _reg.get(id(mg))
     if ent is None or ent[2]() is not mg:
         return None
-    glist, nd, _ = ent
+    glist, nd = ent[0], ent[1]
     return (glist * nd if nd is not None else list(glist)), nd
 
 
@@ -212,9 +216,17 @@ def _bind(names, defaults, args, kwargs):
     return vals
 
 
+def _register(mg, grid_list, num_domains, label=""):
+    """Remember the construction arguments of ``mg`` (the reference never goes through the properties under test).  Clones
+    (copy / deepcopy / pickle) do not pass __init__: the workload registers them with the ORIGINAL's arguments, so that a clone is
+    decided as 'the product grid that was built with these arguments'."""
+    _reg[id(mg)] = (list(grid_list), num_domains, weakref.ref(mg), label)
+    weakref.finalize(mg, _reg.pop, id(mg), None)
+
+
 def _mode(mg):
     ent = _reg.get(id(mg))
-    return "repeated" if ent and ent[1] is not None else "list"
+    return ("repeated" if ent and ent[1] is not None else "list") + (ent[3] if ent else "")
 
 
 # ----------------------------------------------------------------------------- monitors
@@ -225,8 +237,7 @@ def _post_init(res, exc, args, kwargs):
         ctx.count(f"init-rejected:{type(exc).__name__}")
         return
     mg = args[0]
-    _reg[id(mg)] = (list(a["grid_list"]), a["num_domains"], weakref.ref(mg))
-    weakref.finalize(mg, _reg.pop, id(mg), None)
+    _register(mg, a["grid_list"], a["num_domains"])
 
 
 def _post_integrate(res, exc, args, kwargs):
@@ -580,12 +591,14 @@ def run_case(ctx, family, params):
         with ctx.guard("constructible", f"MultiDomainGrid[list,D={D}]"):
             mg = MultiDomainGrid(grids) if rng.random() < 0.5 else MultiDomainGrid(grid_list=grids)
             _exercise(ctx, mg, grids, dims, [params["integrand"]])
+            _clones(ctx, mg, grids, None, dims, params["integrand"])
     elif family == "repeated":
         D = params["D"]
         g, d = _domain(rng, str(rng.choice(DOMAIN_KINDS)), int(rng.integers(1, 8)))
         with ctx.guard("constructible", f"MultiDomainGrid[repeated,D={D}]"):
             mg = MultiDomainGrid([g], num_domains=D) if rng.random() < 0.5 else MultiDomainGrid([g], D)
             _exercise(ctx, mg, [g] * D, [d] * D, [params["integrand"]])
+            _clones(ctx, mg, [g], D, [d] * D, params["integrand"])
     elif family == "default-chunk":
         D = params["D"]
         lo, hi = {2: (60, 131), 3: (12, 31), 4: (6, 13)}[D]
@@ -617,6 +630,36 @@ def run_case(ctx, family, params):
         _forms(ctx, params)
     else:
         raise ValueError(family)
+
+
+def _clones(ctx, mg, glist, nd, dims, integrand):
+    """The object (and, every other case, its component grids before construction) goes through copy.copy / copy.deepcopy /
+    pickle; a clone is 'the product grid built with these arguments': it is registered with the ORIGINAL's component grids and
+    pushed through the same post-conditions and caller-side comparisons as the original."""
+    from grid.ngrid import MultiDomainGrid
+
+    rng = ctx.rng
+    grids_ref = list(glist) * nd if nd is not None else list(glist)
+    n = int(np.prod([int(np.asarray(g.weights).size) for g in grids_ref]))
+    mode = "repeated" if nd is not None else "list"
+    for kind in roundtrip.pick(rng, 1 if ctx.tier == "quick" else 2):
+        cand = _chunks(n)
+        chunks = [cand[int(i)] for i in rng.choice(len(cand), size=min(len(cand), 2), replace=False)]
+        c = roundtrip.check_clone(ctx, f"MultiDomainGrid[{mode},D={len(grids_ref)}]", mg, kind)
+        if c is not None:
+            _register(c, glist, nd, label=",clone:" + kind)
+            _exercise(ctx, c, grids_ref, dims, [integrand], chunks=chunks)
+        if rng.random() < 0.5:  # the component grids are cloned BEFORE the product grid is constructed
+            distinct = {}
+            for g in glist:
+                if id(g) not in distinct:
+                    distinct[id(g)] = roundtrip.check_clone(ctx, f"component:{type(g).__name__}", g, kind)
+            if all(v is not None for v in distinct.values()):
+                comps = [distinct[id(g)] for g in glist]
+                mg2 = MultiDomainGrid(comps, num_domains=nd) if nd is not None else MultiDomainGrid(comps)
+                _register(mg2, glist, nd, label=",components-cloned:" + kind)  # reference = the ORIGINAL component grids
+                _exercise(ctx, mg2, grids_ref, dims, [integrand], chunks=chunks)
+        ctx.count("clones-exercised:" + kind)
 
 
 def _mutate(ctx, rng, g):
@@ -680,6 +723,11 @@ def _history(ctx, params):
         ctx.count("history:rounds")
         if r < rounds - 1 and rng.random() < 0.8:
             _mutate(ctx, rng, grids[int(rng.integers(0, D))])
+    # a clone of the FINAL state (no mutation afterwards) must describe the current component grids as well
+    if params["repeat"]:
+        _clones(ctx, mg, [grids[0]], D, dims, "coupled")
+    else:
+        _clones(ctx, mg, grids, None, dims, "coupled")
     ctx.case_note("rounds", rounds)
 
 
